@@ -4,10 +4,9 @@
 //  * `v.retain(|x| g.get(x).map(|c| !c.is_empty()).unwrap_or(true))`: Vec::retain keeps, in order,
 //    the elements the predicate accepts (R34, closure matched literally);
 //  * a UstrSet iterated by value yields every member once;
-//  * ASSUMED, not verified: get_not_depended_on_nonterminals (in-degree counting through iterator
-//    chains and `get_mut`) returns only vertices of the graph that nothing depends on. It is used
-//    for one thing: the `debug_assert!` that such a vertex has not been visited yet. The verdict
-//    (cycle / no cycle) does not depend on which vertices it returns.
+//  * `m.into_iter()` on a UstrMap taken by value yields every (key, value) pair once (R70);
+//  * get_not_depended_on_nonterminals is NOT a stand-in any more: it is extracted and proved in
+//    unit c08 (rules R69, R70).
 verus! {
 
 #[verifier::external_body]
@@ -45,9 +44,13 @@ pub fn __ustrset_vec(s: &UstrSet) -> (r: Vec<Ustr>)
         forall|i: int, j: int| 0 <= i < j < r@.len() ==> r@[i] != r@[j],
 { unimplemented!() }
 
+/// a UstrMap consumed by `into_iter()`: its (key, value) pairs, each key once, in the map's own order (R70)
 #[verifier::external_body]
-fn get_not_depended_on_nonterminals(dependency_graph: &UstrMap<UstrMap<HumanSpan>>) -> (r: UstrSet)
-    ensures forall|x: Ustr| r@.contains(x) ==> dependency_graph@.contains_key(x) && !has_pred(dependency_graph@, x)
+pub fn __map_into_entries<V>(m: UstrMap<V>) -> (r: Vec<(Ustr, V)>)
+    ensures
+        forall|i: int| 0 <= i < r@.len() ==> m@.contains_key((#[trigger] r@[i]).0) && m@[r@[i].0] == r@[i].1,
+        forall|k: Ustr| m@.contains_key(k) ==> exists|i: int| 0 <= i < r@.len() && (#[trigger] r@[i]).0 == k,
+        forall|i: int, j: int| 0 <= i < j < r@.len() ==> (#[trigger] r@[i]).0 != (#[trigger] r@[j]).0,
 { unimplemented!() }
 
 } // verus!
